@@ -839,7 +839,7 @@ func c17HoldsQuiet(s *SugarDB, k string, want []c17M) bool {
 		o := st.Get(ss.Value(m.name))
 		good = good && o.Exists && float64(o.Score) == m.score
 	}
-	return good
+	return good && c17EnumOK(st, want)
 }
 
 func Verif_C17_ZRangeByScore()      { c17RangeByScore(false, false) }
